@@ -1,6 +1,6 @@
 CONSTANTS
-NAddr = 7
-Fam <- Fam7
+NAddr = 8
+Fam <- Fam8
 MaxSc = 400
 Mutant = 0
 Quirk = 0
